@@ -59,6 +59,7 @@ def dispatch (op : String) : Option (List String → List String → Option (Str
   | "gaussvol" => some gaussvol
   | "pipeline" => some pipelineOp
   | "calc.constant" => some (calcOp "constant")
+  | "calc.constantj" => some (calcOp "constantj")
   | "calc.ramp" => some (calcOp "ramp")
   | "calc.staged" => some (calcOp "staged")
   | "calc.gaussian" => some (calcOp "gaussian")
